@@ -412,10 +412,12 @@ class _State(object):
             pass
         elif isinstance(st, ast.FunctionDef):
             body = [b for b in st.body if not (isinstance(b, ast.Expr) and isinstance(b.value, ast.Constant))]
-            if len(body) == 1 and isinstance(body[0], ast.Return) and body[0].value is not None and not st.args.vararg and not st.args.kwarg and not st.decorator_list:
-                # a local one-expression function (a strategy handed to a helper): its body stands for its calls
+            simple = len(body) == 1 and isinstance(body[0], ast.Return) and body[0].value is not None
+            plain = not any(isinstance(x, (ast.Yield, ast.YieldFrom, ast.Nonlocal, ast.Global, ast.FunctionDef, ast.Lambda, ast.While, ast.For, ast.Try)) for b in body for x in ast.walk(b))
+            if (simple or plain) and not st.args.vararg and not st.args.kwarg and not st.decorator_list:
+                # a local function (a strategy handed to a helper, a repeated tail given a name): its body stands for its calls
                 cid = len(self.ex.__dict__.setdefault("closures", []))
-                self.ex.closures.append((st, dict(self.env), self.module))
+                self.ex.closures.append((st, dict(self.env), self.module, self))
                 self.env[st.name] = ("closure", cid)
             else:
                 self.env[st.name] = ("unknown", "nested def")
@@ -817,7 +819,10 @@ class _State(object):
                     # a local functools.partial(f, ...) called: the call of f with both argument lists
                     return self._call_value(fv, args, kwargs, n)
                 if fv[0] == "closure" and self.depth < self.ex.inline_depth + 2:
-                    node, cenv, cmod = self.ex.closures[fv[1]]
+                    node, cenv, cmod = self.ex.closures[fv[1]][:3]
+                    owner = self.ex.closures[fv[1]][3] if len(self.ex.closures[fv[1]]) > 3 else None
+                    if owner is self:
+                        cenv = self.env  # a closure reads its free variables when it is called
                     names, defaults = func_params(node)
                     if len(args) <= len(names) and not any(k == "**" for k, _ in kwargs) and not any(a[0] == "starred" for a in args):
                         sub = _State(self.ex, cmod, dict(cenv), self.depth + 1)
@@ -832,7 +837,15 @@ class _State(object):
                             else:
                                 okb = False
                         if okb:
-                            return sub.expr([b for b in node.body if isinstance(b, ast.Return)][0].value)
+                            cbody = [b for b in node.body if not (isinstance(b, ast.Expr) and isinstance(b.value, ast.Constant))]
+                            if len(cbody) == 1 and isinstance(cbody[0], ast.Return) and cbody[0].value is not None:
+                                return sub.expr(cbody[0].value)
+                            sub.conds = []
+                            sub.block(cbody)
+                            if sub.live:
+                                sub.rets.append(Ret(("const", None), sub.conds, node, "return"))
+                            if all(r.kind == "return" for r in sub.rets):
+                                return self.ex.result_term(sub.rets)
                 if fv[0] == "funcref" or (fv[0] == "global" and fv[1].startswith(self.repo.package + ".")):
                     # a function (or module-level partial / compiled pattern) received as an argument
                     qn = fv[1]
@@ -845,6 +858,15 @@ class _State(object):
                 if bound is not None:
                     # NAME = partial(PATTERN.sub, "") called as NAME(x): the regex operation itself
                     return ("call", bound[0], bound[1] + args, kwargs)
+                getter = self._getter_names(f.id)
+                if getter is not None and len(args) == 1 and not kwargs:
+                    # NAME = attrgetter("a", "b") called as NAME(x): (x.a, x.b); NAME = methodcaller("m"): x.m()
+                    if getter[0] == "method":
+                        return ("method", getter[1][0], args[0], (), ())
+                    if len(getter[1]) == 1 and "." not in getter[1][0]:
+                        return mkattr(args[0], getter[1][0])
+                    if all("." not in g for g in getter[1]):
+                        return ("tuple", tuple(mkattr(args[0], g) for g in getter[1]))
                 qn = self.repo.resolve_call(self.module, f)
                 if qn is None and f.id in self.module.bindings:
                     # module-level value that is callable (partial, compiled regex...)
@@ -904,6 +926,15 @@ class _State(object):
         if fv[0] == "partial":
             return self._call_value(fv[1], tuple(fv[2]) + tuple(args), tuple(k for k in fv[3] if k[0] not in dict(kwargs)) + tuple(kwargs), node)
         if fv[0] in ("funcref", "global") and isinstance(fv[1], str):
+            short = fv[1].rpartition(".")[2]
+            if fv[1].startswith(self.module.name + ".") or short in self.module.bindings:
+                getter = self._getter_names(short)
+                if getter is not None and len(args) == 1 and not kwargs:
+                    # a module-level attrgetter / methodcaller handed around as a function
+                    if getter[0] == "method":
+                        return ("method", getter[1][0], args[0], (), ())
+                    if all("." not in g for g in getter[1]):
+                        return mkattr(args[0], getter[1][0]) if len(getter[1]) == 1 else ("tuple", tuple(mkattr(args[0], g) for g in getter[1]))
             return self.apply(fv[1], tuple(args), tuple(kwargs), node)
         return ("callv", fv, tuple(args), tuple(kwargs))
 
@@ -930,6 +961,23 @@ class _State(object):
         finally:
             ex._stack.pop()
         return ("inl", label, ex.result_term(rets))
+
+    def _getter_names(self, name):
+        """('attr' | 'method', names) when the module-level name is operator.attrgetter("a", "b", ...) / operator.methodcaller("m"); else None"""
+        site = self.repo.def_site(self.module, name) if name in self.module.bindings else None
+        if site is None:
+            return None
+        home = self.repo.mod(site[0])
+        rec = home.last_binding(site[1])
+        if rec is None or rec[0] != "assign" or not isinstance(rec[1], ast.Call) or not rec[1].args or rec[1].keywords:
+            return None
+        c = rec[1]
+        qn = self.repo.dotted(home, c.func) if isinstance(c.func, ast.Attribute) else getattr(self.repo.resolve(home, c.func.id), "qualname", None) if isinstance(c.func, ast.Name) else None
+        if qn not in ("operator.attrgetter", "operator.methodcaller") or not all(isinstance(a, ast.Constant) and isinstance(a.value, str) for a in c.args):
+            return None
+        if qn == "operator.methodcaller" and len(c.args) != 1:
+            return None
+        return ("attr" if qn == "operator.attrgetter" else "method"), [a.value for a in c.args]
 
     def _regex_method_partial(self, name):
         """(canonical regex-operation name, constant leading arguments) when the module-level name is
